@@ -9,25 +9,26 @@ import (
 
 // EPConfig is a stack-neutral description of an endpoint configuration.
 type EPConfig struct {
-	Suites       []uint16 `json:"suites"` // nil: library default
-	Ident        string   `json:"ident"`  // which key pairs: "srv","srv2","cli","cli-sig","none","untrusted","expired","future","cli-untrusted","cli-expired","cli-wrongeku","rsa","ed"
-	Roots        string   `json:"roots"`  // "ca" (default), "other", "none"
-	Auth         int      `json:"auth"`   // ClientAuthType (server)
-	ALPN         []string `json:"alpn"`
-	ServerName   string   `json:"sni"`
-	Insecure     bool     `json:"insecure"`
-	Cache        string   `json:"cache"` // "" none; otherwise the name of a cache shared through Registry
-	CacheCap     int      `json:"cache_cap"`
-	PMTU         int      `json:"pmtu"`
-	ReplayWindow int      `json:"replay_window"`
-	DynOff       bool     `json:"dyn_off"`
-	Clone        bool     `json:"clone"`
-	MinVersion   uint16   `json:"min_version"`
-	MaxVersion   uint16   `json:"max_version"`
-	RetransMs    int      `json:"retrans_ms"`
-	MaxRetransMs int      `json:"max_retrans_ms"`
-	CookieSecret []byte   `json:"cookie_secret"`
-	RandSeed     uint64   `json:"rand_seed"` // 0: crypto/rand
+	Suites         []uint16 `json:"suites"` // nil: library default
+	Ident          string   `json:"ident"`  // which key pairs: "srv","srv2","cli","cli-sig","none","untrusted","expired","future","cli-untrusted","cli-expired","cli-wrongeku","rsa","ed"
+	Roots          string   `json:"roots"`  // "ca" (default), "other", "none"
+	Auth           int      `json:"auth"`   // ClientAuthType (server)
+	ALPN           []string `json:"alpn"`
+	ServerName     string   `json:"sni"`
+	Insecure       bool     `json:"insecure"`
+	Cache          string   `json:"cache"` // "" none; otherwise the name of a cache shared through Registry
+	CacheCap       int      `json:"cache_cap"`
+	PMTU           int      `json:"pmtu"`
+	ReplayWindow   int      `json:"replay_window"`
+	DynOff         bool     `json:"dyn_off"`
+	Clone          bool     `json:"clone"`
+	MinVersion     uint16   `json:"min_version"`
+	MaxVersion     uint16   `json:"max_version"`
+	RetransMs      int      `json:"retrans_ms"`
+	MaxRetransMs   int      `json:"max_retrans_ms"`
+	CookieSecret   []byte   `json:"cookie_secret"`
+	RandSeed       uint64   `json:"rand_seed"`                  // 0: crypto/rand
+	TimeShiftYears int      `json:"time_shift_years,omitempty"` // the configuration's clock = the fixed clock + this many years
 }
 
 // EPResult is the stack-neutral projection of what an endpoint observed.
